@@ -3,8 +3,8 @@
    [a_find a ty] is "the block of type ty".  The theorems say what every call does to [a_find], and
    ContainerFacts.step_refines says the code does exactly that to the bytes.  The last theorems go
    from the abstract block to the concrete bytes at the concrete offset and through the decoder. *)
-From Model Require Import Base Str Fmt Blocks Container AFile.
-From Proofs Require Import BaseFacts FmtFacts ContainerFacts ContainerProps.
+From Model Require Import Base Str Fmt Blocks Container AFile GFile.
+From Proofs Require Import BaseFacts FmtFacts ContainerFacts ContainerProps GapFacts.
 Open Scope Z_scope.
 
 (* the code's step IS the abstract step (successful or refused), for every history *)
@@ -72,6 +72,55 @@ Proof.
   exists rest. now apply dec_enc.
 Qed.
 Print Assumptions C04_read_back.
+
+(* ---- the same on files that are not packed (GFile.v: padding in front of blocks, bytes behind the last block; the
+   class [ordered] of C03_history_ordered).  A block is still its type, format, dates, comment and payload; the
+   padding is not part of any block. ---- *)
+Theorem C04_holes_code_follows_abstract_file : forall a ops, g_inv a -> Forall op_ok ops ->
+  run_ops (gconc a) ops = gconc (g_run a ops) /\ g_inv (g_run a ops).
+Proof. intros a ops. apply grun_refines. Qed.
+Print Assumptions C04_holes_code_follows_abstract_file.
+
+Theorem C04_holes_frame : forall a o ty', op_type o <> Some ty' -> g_find (g_next a o) ty' = g_find a ty'.
+Proof. exact gframe_other. Qed.
+Print Assumptions C04_holes_frame.
+
+Theorem C04_holes_add_stores : forall a b c now a', g_inv a -> g_step a (OAdd b c now) = Some a' ->
+  exists p, b_payload b = Some p /\
+            g_find a' (b_type b) = Some (mkL (b_type b) (b_format b) (b_cdate b) (b_mdate b) now c p).
+Proof. exact gstored_add. Qed.
+Print Assumptions C04_holes_add_stores.
+
+Theorem C04_holes_removed_absent : forall a ty now a', g_inv a -> g_step a (ORemove ty now) = Some a' ->
+  g_find a' ty = None.
+Proof. exact gremoved_absent. Qed.
+Print Assumptions C04_holes_removed_absent.
+
+(* on disk: the live entries of the table are, in order, the entries of the blocks, and the bytes each points at are
+   exactly its block's payload — whatever padding surrounds it, after any history *)
+Theorem C04_holes_bytes_on_disk : forall a ops, g_inv a -> Forall op_ok ops ->
+  Forall2 (fun e g => slice (e_off e) (e_size e) (run_ops (gconc a) ops) = l_payload (g_blk g) /\
+                      e = live_entry (e_off e) (g_blk g))
+          (filter is_live (tab (run_ops (gconc a) ops))) (gf_live (g_run a ops)).
+Proof.
+  intros a ops Hi Ho. destruct (grun_refines ops a Hi Ho) as [E Hi']. rewrite E. now apply gbytes_on_disk.
+Qed.
+Print Assumptions C04_holes_bytes_on_disk.
+
+(* non-vacuity: three blocks with 5, 0 and 2 bytes of padding in front; remove the first: the other two keep payload,
+   format, comment and dates, their offsets drop by exactly the removed size, and the bytes found there are theirs *)
+Example C04_example_holes :
+  let a := mkGF 4 [mkG [1; 1; 1; 1; 1] (mkL 16 0 1 2 3 [65] [9; 9; 9]); mkG [] (mkL 13 7 10 20 30 [66; 67] [7]);
+                   mkG [2; 2] (mkL 5 1 11 21 31 [] [4; 5])] [] [] [mkF 0 5 5 5 []] in
+  g_inv a /\
+  g_find (g_next a (ORemove 16 99)) 13 = Some (mkL 13 7 10 20 30 [66; 67] [7]) /\
+  c_get_type (snd (step (gconc a) (ORemove 16 99))) 5 = Some (mkE 5 1 1224 2 11 21 31 [], [4; 5]) /\
+  c_get_type (gconc a) 5 = Some (mkE 5 1 1227 2 11 21 31 [], [4; 5]).
+Proof.
+  cbn zeta. split; [|split; [|split]; vm_compute; reflexivity].
+  split; [split; [repeat constructor; discriminate|split; [reflexivity|discriminate]]|].
+  repeat constructor; cbn; intuition discriminate.
+Qed.
 
 (* non-vacuity: remove the first of three blocks (sizes 3, 1, 2): the other two keep payload, format,
    comment and dates although both had to move *)
